@@ -713,6 +713,38 @@ func (c *SpecCtx) call(e *ast.CallExpr) Value {
 			cells[i] = At(s, off+i)
 		}
 		return AggV{Cells: cells}
+	case "bitsum":
+		// bitsum(arr, n) = sum_{i<n} arr[i] * 2^i
+		v := c.eval(e.Args[0])
+		n := int(c.term(e.Args[1]).val.Int64())
+		parts := []*Term{IntI(0)}
+		for i := 0; i < n; i++ {
+			var b *Term
+			switch a := v.(type) {
+			case AggV:
+				if a.Sym != nil {
+					if concreteOn {
+						c.fail("abstract array in concrete evaluation")
+					}
+					b = ex.readSym(a.Sym, IntI(int64(i)))
+				} else {
+					b = a.Cells[i].(*Term)
+				}
+			default:
+				c.fail("bitsum of %T", v)
+			}
+			parts = append(parts, Mul(IntC(pow2(i)), b))
+		}
+		return Add(parts...)
+	case "bitsumf":
+		// bitsumf(v, n) = sum_{i<n} bit(v, i) * 2^i
+		x := c.term(e.Args[0])
+		n := int(c.term(e.Args[1]).val.Int64())
+		parts := []*Term{IntI(0)}
+		for i := 0; i < n; i++ {
+			parts = append(parts, Mul(IntC(pow2(i)), App("bit", SInt, x, IntI(int64(i)))))
+		}
+		return Add(parts...)
 	case "rndblock":
 		return rndBlock(c.term(e.Args[0]))
 	case "hexvalid":
